@@ -44,7 +44,7 @@ def cases(ctx):
     rng = ctx.rng
     # dns/rdtypes directory vs. the model's table of types with a specific codec
     msgs = []
-    n_small = ctx.n(95, 1000)
+    n_small = ctx.n(95, 700)
     for i in range(n_small):
         origin = None
         if rng.random() < 0.3:
@@ -172,7 +172,7 @@ def cases(ctx):
             yield "parse:mutated", [2, bytes(mw), origin, 16]
     # low-level Renderer sequences (TooBig caught by the caller, more records with the same owner
     # afterwards): the compression table must not keep entries of rolled-back octets
-    for i in range(ctx.n(70, 900)):
+    for i in range(ctx.n(70, 600)):
         origin = None if rng.random() < 0.8 else [b"o", b"example", b""]
         mid, flags, ms, ops = g.gen_rseq(rng, origin)
         yield "rseq", [7, origin, mid, flags, ms, ops]
@@ -240,7 +240,7 @@ def cases(ctx):
         if t in (g.KX, g.PX, g.WKS, g.NAPTR, g.DHCID, g.NSAP, g.DS, g.IPSECKEY, g.AMTRELAY):
             yield "parse:rdata-checks", [2, one_rr(t, rdata, c=3), None, 16]
     # rcode / opcode / EDNS packing
-    for _ in range(ctx.n(100, 1500)):
+    for _ in range(ctx.n(100, 1000)):
         flags = rng.choice([0, 0xFFFF, rng.randrange(65536)])
         ef = rng.choice([0, 0xFFFFFFFF, rng.randrange(2**32)])
         v = rng.choice([0, 15, 16, 4095, 4096, -1, rng.randrange(4096), rng.randrange(16), rng.randrange(256)])
@@ -275,7 +275,7 @@ def cases(ctx):
                  (b"\x3f" + b"a" * 63) * 4 + b"\x00", (b"\x3f" + b"a" * 63) * 3 + b"\x3d" + b"b" * 61 + b"\x00", b"\x01a\x80\x00"):
         yield "parse:option-checks", [2, rc_wire(data), None, 16]
         yield "parse:option-checks", [2, rc_wire(data, struct.pack("!HH", 3, 2) + b"id"), None, 16]
-    for i in range(ctx.n(60, 600)):
+    for i in range(ctx.n(60, 300)):
         ol = [g.gen_special_option(rng, valid=rng.random() < 0.5) for _ in range(rng.choice([1, 1, 2, 3]))]
         if rng.random() < 0.2:
             ol.insert(rng.randrange(len(ol) + 1), [rng.choice([12, 65001, 18]), b"\x01\x61\x00"])
